@@ -6,6 +6,7 @@ import (
 	"encoding/json"
 	"errors"
 	"fmt"
+	"math"
 	"os"
 	"path/filepath"
 	"strconv"
@@ -97,6 +98,26 @@ func addField(e *zerolog.Event, name, vc string, i int) (*zerolog.Event, interfa
 		return e.Int64(name, v), json.Number(strconv.FormatInt(v, 10))
 	case "floatexp":
 		return e.Float64(name, 1e21), json.Number("1e+21")
+	case "numtok": // number tokens whose digits a numeric round trip would not give back: they must appear verbatim
+		switch i % 12 {
+		case 0:
+			return e.Float64(name, math.Copysign(0, -1)), json.Number("-0")
+		case 1:
+			return e.Float32(name, float32(math.Copysign(0, -1))), json.Number("-0")
+		case 2:
+			return e.Uint64(name, math.MaxUint64), json.Number("18446744073709551615")
+		case 3:
+			return e.Int64(name, math.MinInt64), json.Number("-9223372036854775808")
+		case 4:
+			return e.Float64(name, 1e-7), json.Number("1e-7")
+		case 5:
+			return e.Float64(name, -1.5e300), json.Number("-1.5e+300")
+		case 6:
+			return e.Float32(name, 0.1), json.Number("0.1")
+		default:
+			tok := []string{"-0.0", "1E2", "1.0", "0.10", "-0e0"}[i%12-7]
+			return e.RawJSON(name, []byte(tok)), json.Number(tok)
+		}
 	case "bool":
 		return e.Bool(name, i%2 == 0), i%2 == 0
 	case "null":
